@@ -183,6 +183,12 @@ def check(case):
                 if d['wires'][i]['p2'] != d['wires'][i + 1]['p1']:
                     fails.append(('wires:chain-not-identical', 'emulated wires %d and %d: %s / %s' % (i + 1, i + 2, d['wires'][i]['p2'], d['wires'][i + 1]['p1'])))
                     break
+        # ... and grounds an end only if its z coordinate is exactly 0
+        for (w, e) in topo.grounded:
+            zz = d['wires'][first_last[w][0]]['p1'][2] if e == 0 else d['wires'][first_last[w][1]]['p2'][2]
+            if zz != 0.0:
+                fails.append(('wires:grounded-end-not-zero', 'end %d of object %d is on the ground plane in the model and written with z = %r' % (e + 1, w, zz)))
+                break
         for j in topo.junctions:
             if len(j) < 2:
                 continue
